@@ -693,6 +693,12 @@ func c06Directed() []c06Script {
 		open(0, true, 0), resp(3, false, 200, 5000), pd(3, 5000, 0, true), rd(3, 100000), ping)
 	small := c06Cfg{name: "conn-flow-64k", connFlow: 65536}
 	add("content-length-overlong-small-window", small, cat([]c06Op{S()}, rep(8, open(0, true, 0), resp(0, false, 200, 1), pd(0, 16000, 0, false), rd(0, 16000)))...)
+	// 16b. a status that never has a body (204, 304) with a Content-Length and the stream left open:
+	//      the declared length is not accounted (/repo 5224b93) - DATA that follows is read and
+	//      credited like any other, no "more than declared" abort; END_STREAM on an empty DATA frame
+	add("no-body-status-content-length", def, S(), open(0, true, 0), resp(0, false, 204, 10), pd(0, 5000, 0, false), rd(0, 8192), pd(0, 100, 0, true), rd(0, 1000),
+		open(0, true, 0), resp(1, false, 304, 1234), pd(1, 0, 0, true), open(0, true, 0), resp(2, false, 304, 10), pd(2, 8192, 7, false), rd(2, 3000), rd(2, 100000), closeB(2),
+		open(0, true, 0), resp(3, false, 204, 0), pd(3, 4096, 0, false), rd(3, 4096), pd(3, 0, 0, true), ping)
 	// 17. DATA that is dropped with a stream error: after END_STREAM (upload still going), before the
 	//     response HEADERS, after a 1xx only
 	add("discarded-data", def, S(), open(100000, true, 0), feed(0), ph(0, true), pd(0, 5000, 0, false), open(0, true, 0), pd(1, 5000, 0, false),
@@ -1229,7 +1235,7 @@ func c06Gen(r *rand.Rand, maxOps int) func(e *c06Env, n int) *c06Op {
 // against the Lean strict-peer monitor.
 func TestVerif_C06_script(t *testing.T) {
 	s := verifh.New(t, "C06", "script",
-		"real ClientConn (Transport.NewClientConn, loopback TCP) against a frame-script peer (x/net/http2 Framer + hpack), one caller/peer operation at a time to quiescence; 58 directed scripts (body sizes around 16384/65535/window+-1, INITIAL_WINDOW_SIZE up/down/negative, MAX_FRAME_SIZE, MAX_CONCURRENT_STREAMS, WINDOW_UPDATE increments and overflow, RST_STREAM, GOAWAY, padding, reads around the 4096 refresh threshold, close with unread data, browser presets, caller fingerprints; round 5, through a gate between the ClientConn and the socket that parks the writer inside a frame write: a request cancelled after a chosen octet of its header / trailer block (oc, tc), Body.Close / Body.Read / cancel on one stream while another stream's writer holds cc.wmu inside a DATA frame (hx, hr, hc), two requests with the first held between id allocation and HEADERS (open pairs), requests queued for a stream slot across SETTINGS changes) + random scripts of up to 60 operations on default/Chrome/Firefox/Safari/random fingerprints; compared: per-operation frame list (type, stream, length, flags, settings, increments) with the Lean model; property oracle: Lean monitor verdict on the recorded history, no unexpected connection close, no stall, connection- and stream-level credit owed < 4096, no lost wake-up; non-trivial = at least 4 operations")
+		"real ClientConn (Transport.NewClientConn, loopback TCP) against a frame-script peer (x/net/http2 Framer + hpack), one caller/peer operation at a time to quiescence; 59 directed scripts (body sizes around 16384/65535/window+-1, INITIAL_WINDOW_SIZE up/down/negative, MAX_FRAME_SIZE, MAX_CONCURRENT_STREAMS, WINDOW_UPDATE increments and overflow, RST_STREAM, GOAWAY, padding, reads around the 4096 refresh threshold, close with unread data, browser presets, caller fingerprints; round 5, through a gate between the ClientConn and the socket that parks the writer inside a frame write: a request cancelled after a chosen octet of its header / trailer block (oc, tc), Body.Close / Body.Read / cancel on one stream while another stream's writer holds cc.wmu inside a DATA frame (hx, hr, hc), two requests with the first held between id allocation and HEADERS (open pairs), requests queued for a stream slot across SETTINGS changes) + random scripts of up to 60 operations on default/Chrome/Firefox/Safari/random fingerprints; compared: per-operation frame list (type, stream, length, flags, settings, increments) with the Lean model; property oracle: Lean monitor verdict on the recorded history, no unexpected connection close, no stall, connection- and stream-level credit owed < 4096, no lost wake-up; non-trivial = at least 4 operations")
 	log.SetOutput(io.Discard)
 	s.OracleIndependent = true // DATA/WINDOW_UPDATE sizes are the implementation's choice, the monitor is the property
 	var runs []*c06Run
